@@ -10,6 +10,20 @@ use super::logic_var::*;
 
 static mut SUIRON_STOP_QUERY: bool = false;
 
+// Verification hook, compiled only with --cfg suiron_verif: a countdown of
+// the calls of query_stopped(). When it reaches zero, the stop flag is
+// raised, as if the timer thread had fired at exactly that moment.
+#[cfg(suiron_verif)]
+static mut VERIF_STOP_COUNTDOWN: i64 = -1;
+
+/// Verification hook (only with --cfg suiron_verif). Raises the stop flag at
+/// the n-th call of query_stopped() from now (0 = the next call). A negative
+/// number disarms the hook.
+#[cfg(suiron_verif)]
+pub fn verif_stop_at(n: i64) {
+    unsafe { VERIF_STOP_COUNTDOWN = n; }
+}
+
 /// Create a timer with a timeout in milliseconds.
 ///
 /// When the timer times out, it sets the SUIRON_STOP_QUERY
@@ -77,6 +91,14 @@ pub fn stop_query() {
 /// # Return
 /// * true/false
 pub fn query_stopped() -> bool {
+    #[cfg(suiron_verif)]
+    unsafe {
+        if VERIF_STOP_COUNTDOWN == 0 {
+            VERIF_STOP_COUNTDOWN = -1;
+            SUIRON_STOP_QUERY = true;
+        }
+        else if VERIF_STOP_COUNTDOWN > 0 { VERIF_STOP_COUNTDOWN -= 1; }
+    }
     unsafe { SUIRON_STOP_QUERY }
 }
 
